@@ -259,7 +259,7 @@ def _frames(rng, corpus, maxlen=600, special=None, lo=1, hi=14):
 
 
 # ====================================================================================== LE: fixed channels
-LE_TARGETS = ['att_server', 'att_client', 'att_indicate', 'smp', 'le_sig', 'cid', 'l2cap_raw']
+LE_TARGETS = ['att_server', 'att_client', 'att_client_late', 'att_indicate', 'smp', 'le_sig', 'cid', 'l2cap_raw']
 
 
 def gen_le(rng, tier, seed):
@@ -270,6 +270,16 @@ def gen_le(rng, tier, seed):
     elif target == 'att_client':
         case['frames'] = _frames(rng, ATT_TO_CLIENT + ATT_TO_SERVER[:8])
         case['pending'] = rng.random() < 0.6
+    elif target == 'att_client_late':
+        # a request of the victim's client is pending; the peer sends stray responses of OTHER kinds (neither a Read Response nor an
+        # Error Response, which would legitimately conclude the read), then answers the pending request late, and the victim at once
+        # issues its next request
+        fr = []
+        while len(fr) < rng.randint(1, 6):
+            f = hostile(rng, [x for x in ATT_TO_CLIENT if x[:1] not in (b'\x0b', b'\x01')])
+            if f[:1] not in (b'\x0b', b'\x01'):
+                fr.append(f.hex())
+        case['frames'] = fr
     elif target == 'smp':
         case['frames'] = _frames(rng, SMP)
     elif target == 'le_sig':
@@ -374,6 +384,8 @@ def run_le(case):
         try:
             if target == 'att_client':
                 _le_att_client(sim, rig, case, frames)
+            elif target == 'att_client_late':
+                _le_att_client_late(sim, rig, case, frames)
             elif target == 'att_indicate':
                 _le_att_indicate(sim, rig, case, frames)
             else:
@@ -491,6 +503,64 @@ def _le_att_indicate(sim, rig, case, frames):
         sim.violation_once('ref', f'reference-unanswered:{label}:second-indication-not-concluded', 'the second indication was confirmed but indicate_subscribers() did not return')
         t.cancel()
     rig.ref_att(label)
+
+
+def _le_att_client_late(sim, rig, case, frames):
+    from bumble.device import Peer
+
+    label = 'att_client_late'
+    peer = Peer(rig.cv)
+    LATE = b'late-answer'
+    mode = {'hold': True}
+    held = []
+
+    def serve(handle, payload):
+        rig.rx.setdefault(4, []).append(payload)
+        if payload[:1] == b'\x0a':
+            if mode['hold']:
+                held.append(payload)
+            else:
+                rig.send(4, b'\x0b' + REF)
+        elif payload[:1] == b'\x02':
+            rig.send(4, b'\x03\x17\x00')
+        elif payload and payload[0] not in (0x1E, 0x01, 0x03, 0x0B, 0x1B, 0x1D) and payload[0] % 2 == 0 and payload[0] < 0x40:
+            rig.send(4, bytes([0x01, payload[0], 0, 0, 0x06]))
+    rig.raw.handlers[4] = serve
+    pending = sim.loop.create_task(peer.gatt_client.read_value(3))
+    sim.loop.drive(lambda: bool(held) or pending.done(), vt_budget=5.0, step_budget=100_000)
+    if not held:
+        raise HarnessError('the pending read never reached the peer')
+    sim.probe('client_request_pending_during_attack')
+    for fr in frames:
+        process(sim, label, rig.send, 4, fr)
+    check_recursion(sim, label)
+    mode['hold'] = False
+    # the peer answers the pending request (once, late); the victim's next request follows immediately
+    with Guard(sim, label):
+        sim.call(rig.send, 4, b'\x0b' + LATE)
+        if pending.done():
+            # the stray responses concluded (failed) the pending read: the next request is issued before the late answer arrives
+            nxt = sim.loop.create_task(peer.gatt_client.read_value(3))
+        else:
+            sim.loop.drive(pending.done, vt_budget=40.0, step_budget=300_000)
+            nxt = sim.loop.create_task(peer.gatt_client.read_value(3))
+        sim.loop.drive(nxt.done, vt_budget=40.0, step_budget=300_000)
+    sim.probe('reference_requests')
+    if not pending.done():
+        sim.violation_once('pending', f'pending-request-never-concluded:{label}', 'the read that was pending during the attack neither returned nor failed within 40 s')
+        pending.cancel()
+    elif not pending.cancelled() and pending.exception() is None and bytes(pending.result()) != LATE:
+        sim.violation_once('pending', f'pending-request-answered-wrongly:{label}', f'the pending read returned {bytes(pending.result())!r}, the peer answered {LATE!r}')
+    elif not pending.cancelled():
+        pending.exception()
+    if not nxt.done() or nxt.cancelled() or nxt.exception() is not None:
+        why = 'pending' if not nxt.done() else ('cancelled' if nxt.cancelled() else type(nxt.exception()).__name__)
+        sim.violation_once('ref', f'reference-unanswered:{label}:client-read:{why}', f'read_value after the stray responses: {why}')
+        if not nxt.done():
+            nxt.cancel()
+    elif bytes(nxt.result()) != REF:
+        sim.violation_once('ref', f'reference-answered-wrongly:{label}:client-read', f'the next read returned {bytes(nxt.result())!r} (the answer to the previous request) instead of {REF!r}')
+    rig.alive(label)
 
 
 def _le_att_client(sim, rig, case, frames):
